@@ -17,6 +17,7 @@ import (
 	"sort"
 	"strings"
 	"sync"
+	"unicode"
 
 	aapp "golang.org/x/perf/analysis/app"
 	"golang.org/x/perf/storage"
@@ -381,6 +382,9 @@ func genC19Fmt(o *hx.Out, r *hx.Rng, tier string) error {
 		"a: 1\n\ngarbage\na: 2\nBenchmarkX 1\n",
 		"a: 1\nBenchmarkX 1\na:\nBenchmarkX 1\na: 1\nBenchmarkX 1\n",
 		"k: v\r\r\nBenchmarkX 1 ns/op\r\r\n",
+		// a line that is no benchmark line any more once its CR is gone; a value that is just CR
+		"BenchmarkV\r\r\nBenchmark 1\nBenchmarkW 2\nBenchmark 3\n",
+		"k: \r\r\nBenchmarkX 1\nj: 1\r\r\nBenchmarkY\r\r\nBenchmarkZ 1\r\r\n",
 	} {
 		if err := c19Fmt(o, nil, false, t); err != nil {
 			return err
@@ -557,7 +561,7 @@ func c19GenBody(r *hx.Rng, op c19HistOpts) string {
 	vals := []string{"linux", "amd64", "a", "b", "ab", "a b", "x\"y", "b\\s", "1", "10", "2", "é", "Z", "aa", "a\tb"}
 	names := []string{"Foo", "Foo-8", "Foo/bar", "Foo/q=v/x-4", "Foo/a=1/b=2", "Bar", "Bar-16", "Foo/bar/baz-2", "Foo/q=v", "Bar/a=2", "Foo/a=1 2"}
 	if op.emptyVal {
-		names = append(names, "X/a=", "X/b=", "X//y", "X/=v")
+		names = append(names, "X/a=", "X/b=", "X//y", "X/=v", "X/b=y", "X/a=y")
 	}
 	if op.collide {
 		keys = append(keys, "name", "gomaxprocs", "sub1", "q", "a")
@@ -583,6 +587,10 @@ func c19GenBody(r *hx.Rng, op c19HistOpts) string {
 			line = r.Pick([]string{"upload: 19700101.1", "upload-time: never", "by: me", "upload-part: x/9", "upload-file: other.txt"})
 		case x < 34:
 			line = r.Pick([]string{"", "PASS", "ok  \tpkg\t0.1s"})
+		case x < 40 && op.emptyVal:
+			// name labels that differ only in which key has the empty value: never one record
+			line = r.Pick([]string{"BenchmarkX/a= 1 ns/op\nBenchmarkX/b=y 1 ns/op", "BenchmarkX/a= 1 ns/op\nBenchmarkX/b= 1 ns/op",
+				"BenchmarkX/b=y 1 ns/op\nBenchmarkX/a= 1 ns/op", "BenchmarkX/a= 1 ns/op\nBenchmarkX/a= 2 ns/op"})
 		case x < 50 && last != "":
 			line = last // repeat: coalesces when no label changed in between
 		default:
@@ -892,35 +900,112 @@ func c19HistoryX(o *hx.Out, r *hx.Rng, in c19HistIn, nq int, tags []string, extr
 	c := hx.L(hx.I(2), hx.List(ups), allSx, hx.List(qsx))
 	o.Count("hist")
 	o.Count(fmt.Sprintf("hist.uploads-ok=%d", nok))
-	// an accepted upload in which a forced flush falls on the first result of a
-	// run that has a follower (c19runs.go): the recorded finding's input class
-	splits := 0
-	for i, u := range in.Uploads {
-		if ok[i] {
-			splits += c19SplitSim(u).splits
-		}
-	}
-	if splits > 0 {
-		tags = append(append([]string{}, tags...), c19SplitTag)
-		o.Count("hist.record-split-at-flush")
-	}
+	// known-finding input classes, decided from the input alone (the uploaded
+	// files as the Reader sees them, the query words, a replay of the insert
+	// counter): never from a generator option. What a tag excuses is decided by
+	// RunC19.known_h, which allows exactly the recorded deviation.
+	tags = append(append([]string{}, tags...), c19InputTags(o, in, ok)...)
 	key := fmt.Sprintf("h%d", o.Len())
 	o.Add(c, in, key, len(all) > 0, tags...)
-	if splits > 0 {
-		// the same observations once more as kind 3 WITHOUT the tag: judged by the
-		// rule amended by exactly the recorded deviation, so that anything else
-		// going wrong on this input is still reported
-		c3 := hx.L(hx.I(3), hx.List(ups), allSx, hx.List(qsx))
-		var rest []string
-		for _, t := range tags {
-			if t != c19SplitTag {
-				rest = append(rest, t)
+	return nil
+}
+
+type c19Term struct {
+	key, val string
+	op       byte
+}
+
+// c19ParseWord splits a query word at its first ':' '<' '>' (nil if the word
+// is not a term: no operator, or white space / an upper-case letter in front of it).
+func c19ParseWord(w string) *c19Term {
+	i := strings.IndexFunc(w, func(r rune) bool {
+		return r == ':' || r == '>' || r == '<' || unicode.IsSpace(r) || unicode.IsUpper(r)
+	})
+	if i < 0 || (w[i] != ':' && w[i] != '<' && w[i] != '>') {
+		return nil
+	}
+	return &c19Term{w[:i], w[i+1:], w[i]}
+}
+
+// c19InputTags: which recorded findings' input classes this history meets.
+//   C19_trailing_cr            an accepted upload holds a result whose line or a label value ends in CR
+//   C19_empty_name_label_value a well-formed query has a term key> (empty value) and a stored result
+//                              carries that key with an empty value
+//   C19_empty_equality_refused a well-formed query has a term key: (empty value), key other than upload
+//   C19_record_split_at_flush  a forced flush falls on the first result of a run that has a follower (c19runs.go)
+func c19InputTags(o *hx.Out, in c19HistIn, ok []bool) []string {
+	var tags []string
+	splits := 0
+	cr := false
+	emptyKeys := map[string]bool{}
+	for i, u := range in.Uploads {
+		if !ok[i] {
+			continue
+		}
+		splits += c19SplitSim(u).splits
+		for _, x := range c19UploadResults(u) {
+			if strings.HasSuffix(x.Content, "\r") {
+				cr = true
+			}
+			for _, v := range x.Labels {
+				if strings.HasSuffix(v, "\r") {
+					cr = true
+				}
+			}
+			for k, v := range x.NameLabels {
+				if v == "" {
+					emptyKeys[k] = true
+				}
 			}
 		}
-		o.Count("hist.record-split-at-flush.amended-copy")
-		o.Add(c3, in, key, len(all) > 0, rest...)
 	}
-	return nil
+	emptyGt, emptyEq := false, false
+	for _, q := range in.Queries {
+		var ts []*c19Term
+		wellFormed := true
+		for _, w := range query.SplitWords(q.Q) {
+			t := c19ParseWord(w)
+			if t == nil {
+				wellFormed = false
+				break
+			}
+			ts = append(ts, t)
+		}
+		if !wellFormed {
+			continue
+		}
+		for _, t := range ts {
+			if t.val != "" || t.key == "upload" {
+				continue
+			}
+			if t.op == ':' {
+				emptyEq = true
+			}
+			if t.op == '>' && emptyKeys[t.key] {
+				emptyGt = true
+			}
+		}
+	}
+	if cr {
+		tags = append(tags, "C19_trailing_cr")
+		o.Count("hist.in-trailing-cr")
+	}
+	if emptyGt {
+		tags = append(tags, "C19_empty_name_label_value")
+		o.Count("hist.in-empty-value-gt")
+	}
+	if emptyEq {
+		tags = append(tags, "C19_empty_equality_refused")
+		o.Count("hist.in-empty-equality")
+	}
+	if len(emptyKeys) > 0 {
+		o.Count("hist.in-empty-name-label")
+	}
+	if splits > 0 {
+		tags = append(tags, c19SplitTag)
+		o.Count("hist.record-split-at-flush")
+	}
+	return tags
 }
 
 func genC19Hist(o *hx.Out, r *hx.Rng, tier string) error {
@@ -930,13 +1015,11 @@ func genC19Hist(o *hx.Out, r *hx.Rng, tier string) error {
 	}
 	for i := 0; i < n; i++ {
 		op := c19HistOpts{collide: r.Chance(0.1), emptyVal: r.Chance(0.06), cr: r.Chance(0.04), big: r.Chance(0.05)}
-		var tags []string
+		var tags []string // input tags are computed in c19HistoryX from the history itself
 		if op.emptyVal {
-			tags = append(tags, "C19_empty_name_label_value")
 			o.Count("hist.opt-empty-value")
 		}
 		if op.cr {
-			tags = append(tags, "C19_trailing_cr")
 			o.Count("hist.opt-cr")
 		}
 		if op.collide {
@@ -979,12 +1062,32 @@ func genC19Fixed(o *hx.Out, r *hx.Rng) error {
 		return err
 	}
 	// finding: a name-derived label with an empty value
-	if err := one("BenchmarkX/a= 1 ns/op\nBenchmarkX/b= 1 ns/op\n", []string{"a>", "b>", "a> a<b", "name:X"}, "C19_empty_name_label_value"); err != nil {
+	// (the tags come from c19InputTags)
+	if err := one("BenchmarkX/a= 1 ns/op\nBenchmarkX/b= 1 ns/op\n", []string{"a>", "b>", "a> a<b", "name:X", "a> a>0", "a> name:X", "b> a>"}); err != nil {
 		return err
 	}
-	// finding: a value / line ending in CR loses it on the way back
-	if err := one("k: v\r\r\nBenchmarkX 1 ns/op\r\r\n", []string{"k>a", "name:X"}, "C19_trailing_cr"); err != nil {
+	// finding: a value / line ending in CR loses it on the way back (one CR per pass)
+	if err := one("k: v\r\r\nBenchmarkX 1 ns/op\r\r\n", []string{"k>a", "name:X", "k:v", "k:v\r", "k<w"}); err != nil {
 		return err
+	}
+	if err := one("k: v\r\r\r\nBenchmarkX 1 ns/op\r\r\r\nj: \r\r\nBenchmarkX 1 ns/op\nBenchmarkX 1 ns/op\r\r\n", []string{"k>a", "name:X", "j>", "j:\r"}); err != nil {
+		return err
+	}
+	// finding: an equality term with an empty value makes the whole query fail
+	if err := one("BenchmarkX/a= 1 ns/op\nBenchmarkY/a=1 1 ns/op\n", []string{"a:", "a:\"\"", "\"a:\" name:X", "name:X", "a: a:1", "a: a<b", "absent:", "upload:", "a:1"}); err != nil {
+		return err
+	}
+	// Labels.Equal (repaired by hooks/fix_c19_labels_equal.diff): a missing key read as "",
+	// so {name:X, a:""} "equalled" {name:X, b:y} and the second result was indexed
+	// under the first one's name labels
+	for _, body := range []string{
+		"BenchmarkX/a= 1 ns/op\nBenchmarkX/b=y 1 ns/op\n",
+		"BenchmarkX/b=y 1 ns/op\nBenchmarkX/a= 1 ns/op\n",
+		"BenchmarkX/a= 1 ns/op\nBenchmarkX/b=y 1 ns/op\nBenchmarkX/b=y 2 ns/op\nBenchmarkX/a= 2 ns/op\n",
+	} {
+		if err := one(body, []string{"", "b:y", "a<z", "name:X", "b>x", "name:X b:y"}); err != nil {
+			return err
+		}
 	}
 	// finding: 41 distinct six-label records, then one benchmark run twice: the
 	// flush forced by the 990-argument limit falls on the first of the two, which
@@ -1252,7 +1355,7 @@ func genC19Uni(o *hx.Out, r *hx.Rng, tier string) error {
 
 func genC19(o *hx.Out, r *hx.Rng, tier string, replay string) error {
 	log.SetOutput(io.Discard)
-	o.Rule = "three streams: (words) texts over {a b space tab quote backslash | v s : é < k}, exhaustive up to a length bound over 5 symbols, through SplitWords / addToQuery / parseQueryString; (fmt) generated benchmark files (label set/delete, blank, hostile lines, CRLF) through the legacy Reader (with and without AddLabels), the Printer and the Reader again; (history) 1-6 uploads of 1-3 files through storage.Client into an in-process storage/app server on in-memory sqlite, then 20-60 generated queries (equality/range, present/absent keys, several terms per key, contradictory, redundant, quoted values, malformed words, key upload) each through db.DB.Query, storage.Client.Query, db.DB.ListUploads and storage.Client.ListUploads with a limit; (words, non-ASCII) texts and front-end values with à Å 全 U+00A0 U+2003 U+0085 (UTF-8 bytes 0x85 / 0xA0), exhaustive to length 3 over {a space à Å U+00A0}; (many) 11-14 tiny uploads on one day, listings with limits 1/3/5 and others, with and without queries most uploads match; (transitions) files built from label-set transitions (superset, subset, same size other keys, disjoint, value change) read back per upload in one HTTP response, and through Reader/Printer/Reader; (non-ASCII values) stored label values with those symbols searched by the bare word the front end builds; (flush boundary) uploads of distinct records whose LAST record is the one the database layer's 990-argument (248-label) flush falls into, or falls in front of, or a neighbour of it (first/second/third flush; 4-9 labels per record: with/without user, file name, file labels, gomaxprocs and sub-name labels; one or two files; with the plain six labels that is 42 records; 42, 41, 43 and 83 six-label records are always generated), and uploads whose last record alone has more than 247 (or ~500) labels; every label of that final record is searched as key:value alone, with name:, and with upload:ID through Query and ListUploads; (runs at the flush boundary) the same kind of uploads in which the record the flush falls on is the FIRST of a run of 2-4 results with identical labels (different values), or the run starts one record later / one record earlier (controls), 0-3 distinct records (and sometimes a second run) after it, and runs behind a first result that alone has more than 247 labels; always: 41 distinct six-label records then one benchmark twice, and 40 then the pair; every accepted upload of every history stream is replayed through a simulation of InsertRecord's coalescing and insertLabel's counter, and an input in which a forced flush falls on the first result of a run that has a follower is tagged C19_record_split_at_flush and evaluated a second time, untagged, as kind 3 (rule amended by exactly that deviation). non-trivial = at least one word / result / stored result"
+	o.Rule = "three streams: (words) texts over {a b space tab quote backslash | v s : é < k}, exhaustive up to a length bound over 5 symbols, through SplitWords / addToQuery / parseQueryString; (fmt) generated benchmark files (label set/delete, blank, hostile lines, CRLF) through the legacy Reader (with and without AddLabels), the Printer and the Reader again; (history) 1-6 uploads of 1-3 files through storage.Client into an in-process storage/app server on in-memory sqlite, then 20-60 generated queries (equality/range, present/absent keys, several terms per key, contradictory, redundant, quoted values, malformed words, key upload) each through db.DB.Query, storage.Client.Query, db.DB.ListUploads and storage.Client.ListUploads with a limit; (words, non-ASCII) texts and front-end values with à Å 全 U+00A0 U+2003 U+0085 (UTF-8 bytes 0x85 / 0xA0), exhaustive to length 3 over {a space à Å U+00A0}; (many) 11-14 tiny uploads on one day, listings with limits 1/3/5 and others, with and without queries most uploads match; (transitions) files built from label-set transitions (superset, subset, same size other keys, disjoint, value change) read back per upload in one HTTP response, and through Reader/Printer/Reader; (non-ASCII values) stored label values with those symbols searched by the bare word the front end builds; (flush boundary) uploads of distinct records whose LAST record is the one the database layer's 990-argument (248-label) flush falls into, or falls in front of, or a neighbour of it (first/second/third flush; 4-9 labels per record: with/without user, file name, file labels, gomaxprocs and sub-name labels; one or two files; with the plain six labels that is 42 records; 42, 41, 43 and 83 six-label records are always generated), and uploads whose last record alone has more than 247 (or ~500) labels; every label of that final record is searched as key:value alone, with name:, and with upload:ID through Query and ListUploads; (runs at the flush boundary) the same kind of uploads in which the record the flush falls on is the FIRST of a run of 2-4 results with identical labels (different values), or the run starts one record later / one record earlier (controls), 0-3 distinct records (and sometimes a second run) after it, and runs behind a first result that alone has more than 247 labels; always: 41 distinct six-label records then one benchmark twice, and 40 then the pair; every accepted upload of every history stream is replayed through a simulation of InsertRecord's coalescing and insertLabel's counter, and an input in which a forced flush falls on the first result of a run that has a follower is tagged C19_record_split_at_flush; the other known-finding tags are likewise decided from the history itself (C19_trailing_cr: an accepted upload holds a result whose line or label value ends in CR; C19_empty_name_label_value: a query term key> on a key some stored result carries with an empty value; C19_empty_equality_refused: a query term key: with an empty value), and a tagged history is judged by RunC19.known_h (the property with exactly the recorded deviations allowed, bit 3 of the code). non-trivial = at least one word / result / stored result"
 	genC19Words(o, r.Split(), tier)
 	if err := genC19Fmt(o, r.Split(), tier); err != nil {
 		return err
